@@ -106,6 +106,26 @@ for _o in ("arith", "arith-scalar", "rarith", "compare", "neg", "slice", "sort",
 	DERIVS[f"t.x = kept {_o} result (donor)"] = ("vector", _donor(_o))
 
 
+def _inplace(opname, other):
+	import operator
+	def fn(rng, src, extra):
+		o = {"w": extra["w"], "t2": extra["t2"], "row": None, "list": None, "scalar": 2}[other]
+		if other == "row":
+			o = [x._underlying[0] for x in src.cols()] if len(src) else None
+		if other == "list":
+			o = [1] * len(src)
+		extra["inplace"] = True
+		return getattr(operator, opname)(src, o)
+	return fn
+
+
+# augmented assignment (t >>= u, v <<= [..], v += w ...): whether or not the library updates the left operand in place, the OTHER operand stays an
+# independent object and keeps contents, names and dtypes
+for _nm, _src, _op, _other in (("t >>= t2", "table", "irshift", "t2"), ("t >>= w", "table", "irshift", "w"), ("t >>= list", "table", "irshift", "list"), ("t <<= row", "table", "ilshift", "row"),
+		("v <<= w", "vector", "ilshift", "w"), ("v += w", "vector", "iadd", "w"), ("v *= 2", "vector", "imul", "scalar"), ("v >>= w", "vector", "irshift", "w"), ("t += 2", "table", "iadd", "scalar")):
+	DERIVS[f"inplace {_nm}"] = (_src, _inplace(_op, _other))
+
+
 @deriv("select", "table")
 def _(rng, t, extra):
 	return t["a", "b"]
@@ -291,7 +311,7 @@ def _(rng, v, extra):
 	return v[Vector(list(range(len(v))))]
 
 
-WRITES = ["vec-int-scalar", "vec-slice-seq", "vec-mask-scalar", "vec-idxlist-seq", "vec-slice-promote", "vec-none", "cell", "row", "column", "region",
+WRITES = ["vec-slice-vector", "vec-int-scalar", "vec-slice-seq", "vec-mask-scalar", "vec-idxlist-seq", "vec-slice-promote", "vec-none", "cell", "row", "column", "region",
 	"attr-list", "attr-vector", "rename-view", "rename_column"]
 
 
@@ -307,6 +327,11 @@ def do_write(rng, obj, w, extra):
 		val = pool.make_like(rng, proto)
 		if w == "vec-int-scalar":
 			return call(lambda: col.__setitem__(0, val))
+		if w == "vec-slice-vector":
+			donor = Vector([pool.make_like(rng, proto) for _ in range(n)], name="donor")
+			extra["donor"] = donor
+			extra["donor_target"] = col
+			return call(lambda: col.__setitem__(slice(None), donor))
 		if w == "vec-slice-seq":
 			return call(lambda: col.__setitem__(slice(0, n), [val] * n))
 		if w == "vec-mask-scalar":
@@ -346,6 +371,11 @@ def do_write(rng, obj, w, extra):
 	val = pool.make_like(rng, proto)
 	if w == "vec-int-scalar":
 		return call(lambda: v.__setitem__(-1, val))
+	if w == "vec-slice-vector":
+		donor = Vector([pool.make_like(rng, proto) for _ in range(n)], name="donor")
+		extra["donor"] = donor
+		extra["donor_target"] = v
+		return call(lambda: v.__setitem__(slice(None), donor))
 	if w == "vec-slice-seq":
 		return call(lambda: v.__setitem__(slice(None), [val] * n))
 	if w == "vec-mask-scalar":
@@ -422,6 +452,8 @@ def run_pair(chk, spec):
 		src = extra["swap_source"]
 	if "(donor)" not in dname:
 		for k, obj in (("source", src), ("w", extra["w"]), ("t", extra["t"]), ("t2", extra["t2"])):
+			if k == "source" and extra.get("inplace"):
+				continue      # an augmented assignment may legitimately update its left operand
 			now = M.snap_any(obj)
 			if now != pre[k]:
 				chk.judged("pair", ("derive-purity", dname, k))
@@ -435,6 +467,8 @@ def run_pair(chk, spec):
 	objs = {"source": src, "derived": derived, "w": extra["w"], "t": extra["t"], "t2": extra["t2"]}
 	if "(donor)" in dname:
 		objs.pop("t")    # derived IS t
+	if extra.get("inplace") and derived is src:
+		objs.pop("source")      # updated in place: one object
 	writer = objs[side]
 	if isinstance(writer, Table) and derived is writer and side == "source":
 		chk.skip("pair-same-object")
@@ -458,6 +492,19 @@ def run_pair(chk, spec):
 				chk.fail("a write through one handle leaves every other object unchanged", f"frame/write/{w}/{side}-of-{dname}/victim-{k}",
 					f"derivation {dname}, write {w} through the {side} ({'ok' if o.ok else repr(o)}): {k} changed {short(before[k], 200)} -> {short(now, 200)}")
 			return
+	if "donor_target" in extra and o.ok:
+		# the vector whose values were assigned stays an independent object: both sides take further writes, and neither sees the other's
+		dn, tg = extra["donor"], extra["donor_target"]
+		b_dn, b_tg = M.snap_vector(dn), M.snap_vector(tg)
+		w1 = call(lambda: tg.__setitem__(0, tg._underlying[-1]))
+		if M.snap_vector(dn) != b_dn:
+			chk.fail("a write through one handle leaves every other object unchanged", f"frame/write/{w}/victim-value-vector", f"{dname} / {w}: writing the target afterwards changed the vector the values came from")
+			return
+		w2 = call(lambda: dn.__setitem__(0, dn._underlying[-1]))
+		for which, wr in (("target", w1), ("value-vector", w2)):
+			if not wr.ok and isinstance(wr.exc, AliasError):
+				chk.fail("a write is refused only when it cannot be kept local", f"frame/write-refused-after/{w}/{which}", f"{dname} / {w}: after v[:] = donor a further write to the {which} raised AliasError although the two are separate objects")
+				return
 	if "donor" in extra and isinstance(extra["donor"], Vector):
 		dn = extra["donor"]
 		if dn.name != "donor":
